@@ -89,14 +89,18 @@ pub enum Dh {
     /// raw X25519(private, public); an all-zero result is mixed as is
     Compute([u8; 32], [u8; 32]),
     Value([u8; 32]),
+    /// input keying material of any length (empty, short, long): what a decryptor that substitutes "something"
+    /// for a refused Diffie-Hellman might feed to MixKey
+    Bytes(Vec<u8>),
     Omit,
 }
 
 impl Dh {
-    fn get(&self) -> Option<[u8; 32]> {
+    fn get(&self) -> Option<Vec<u8>> {
         match self {
-            Dh::Compute(k, u) => Some(x25519_raw(k, u)),
-            Dh::Value(v) => Some(*v),
+            Dh::Compute(k, u) => Some(x25519_raw(k, u).to_vec()),
+            Dh::Value(v) => Some(v.to_vec()),
+            Dh::Bytes(b) => Some(b.clone()),
             Dh::Omit => None,
         }
     }
